@@ -279,6 +279,16 @@ def deadlockSchedBuffered : List Lbl :=
   setupSched 2 ++ deliverSched 2 0 ++ [.node 0, .send 0, .takeAction 0, .enterTransformer 0, .cas 0, .node 1, .pick 0 1]
     ++ deliverSched 2 1 ++ [.node 0, .node 1, .send 1, .takeAction 1, .enterTransformer 1, .cas 1]
 
+/-- the witness schedule of D5 for the given facts -/
+def deadlockWitness (c : Cfg) : List Lbl := if c.replyCap = 0 then deadlockSched else deadlockSchedBuffered
+
+/-- both alternatives reach the transformer before either executes the compare-and-swap (hook
+`ebg.transformer.enter` held for both, harness mode `wit2`): the compare-and-swap lets exactly one of them through -/
+def bothInTransformerSched (replyBuffered : Bool) : List Lbl :=
+  setupSched 2 ++ deliverSched 2 0 ++ deliverSched 2 1 ++ [.node 0, .send 0, .node 0, .node 1, .node 1, .send 1]
+    ++ (if replyBuffered then [.takeAction 0, .takeAction 1] else [])
+    ++ [.enterTransformer 0, .enterTransformer 1, .cas 0, .cas 1]
+
 /-- buffered termination channels but the map variable still reassigned: flow 1 evaluates its select only after the
 winner has finished; it waits on a nil channel and is never withdrawn. -/
 def lateSelectSched (replyBuffered : Bool) : List Lbl :=
